@@ -186,6 +186,14 @@ def int_binop(ip, st, op, a, b):
         return mk(x - y, 'int')
     if isinstance(op, ast.Mult):
         return mk(x * y, 'int')
+    if isinstance(op, ast.Div):
+        # true division of ints by a positive concrete int: kept as an exact quotient (value of type 'ratio' = (numerator term, divisor)); only
+        # int() consumes it.  Exact w.r.t. CPython's float result while |numerator| < 2**53: that bound is a proof obligation here.
+        if isinstance(b, int) and not isinstance(b, bool) and b > 0:
+            ip.oblige(st, z3.And(x < 2 ** 53, x > -(2 ** 53)), '%s#float-exact@%d' % (ip.cur_func, getattr(ip, 'cur_line', 0) or 0), 'arith',
+                      clause='int / %d is exact in double precision (|numerator| < 2**53)' % b)
+            return Sym((x, b), 'ratio')
+        raise Unsupported('true division with a symbolic or non-positive divisor')
     if isinstance(op, (ast.FloorDiv, ast.Mod)):
         # Python floor semantics.  z3's div/mod are Euclidean: identical for a positive divisor.
         if isinstance(b, int):
@@ -764,8 +772,23 @@ def norm_index(i, n, st=None):
     return z3.If(i < 0, n + i, i)
 
 
-def nonneg(t, st, depth=0):
-    """cheap syntactic sign analysis: True if the z3 Int term is certainly >= 0 under the path condition"""
+def nonneg(t, st, depth=0, memo=None):
+    """cheap syntactic sign analysis: True if the z3 Int term is certainly >= 0 under the path condition
+    (memoised per top-level call, with a budget of visited nodes: giving up answers False, which only makes terms larger)"""
+    if memo is None:
+        memo = {'$n': 0}
+    key = t.get_id()
+    if key in memo:
+        return memo[key]
+    memo['$n'] += 1
+    if memo['$n'] > 300:
+        return False
+    r = _nonneg(t, st, depth, memo)
+    memo[key] = r
+    return r
+
+
+def _nonneg(t, st, depth, memo):
     if depth > 6:
         return False
     if z3.is_int_value(t):
@@ -775,14 +798,14 @@ def nonneg(t, st, depth=0):
         if k == z3.Z3_OP_SEQ_LENGTH:
             return True
         if k == z3.Z3_OP_ADD or k == z3.Z3_OP_MUL:
-            return all(nonneg(c, st, depth + 1) for c in t.children())
+            return all(nonneg(c, st, depth + 1, memo) for c in t.children())
         if k in (z3.Z3_OP_MOD,):
             return True
         if k == z3.Z3_OP_ITE:
-            return nonneg(t.arg(1), st, depth + 1) and nonneg(t.arg(2), st, depth + 1)
+            return nonneg(t.arg(1), st, depth + 1, memo) and nonneg(t.arg(2), st, depth + 1, memo)
         if k == z3.Z3_OP_IDIV:
-            return nonneg(t.arg(0), st, depth + 1) and nonneg(t.arg(1), st, depth + 1)
-    if st is not None:
+            return nonneg(t.arg(0), st, depth + 1, memo) and nonneg(t.arg(1), st, depth + 1, memo)
+    if st is not None and depth <= 1:
         for f in st.pc[-80:]:
             if _states_nonneg(f, t):
                 return True
